@@ -95,7 +95,27 @@ type G struct {
 
 func (g *G) int(lo, hi int, l string) int { return rapid.IntRange(lo, hi).Draw(g.t, l) }
 func (g *G) bool(l string) bool          { return rapid.Bool().Draw(g.t, l) }
-func (g *G) pct(p int, l string) bool    { return rapid.IntRange(0, 99).Draw(g.t, l) < p }
+
+// pct: rapid's integer draws are biased towards small values for wide ranges; a range
+// of ten values is close to uniform (about 70% uniform + 30% skewed to small values),
+// so probabilities are expressed in tenths and "true" is mapped to the small values.
+func (g *G) pct(p int, l string) bool { return rapid.IntRange(0, 9).Draw(g.t, l) < (p+5)/10 }
+
+// w: weighted choice; weights should sum to about 20 or less, likelier/more interesting alternatives first.
+func (g *G) w(l string, ws ...int) int {
+	tot := 0
+	for _, x := range ws {
+		tot += x
+	}
+	r := rapid.IntRange(0, tot-1).Draw(g.t, l)
+	for i, x := range ws {
+		if r < x {
+			return i
+		}
+		r -= x
+	}
+	return len(ws) - 1
+}
 func pickS(g *G, xs []string, l string) string {
 	return xs[rapid.IntRange(0, len(xs)-1).Draw(g.t, l)]
 }
@@ -110,18 +130,16 @@ var numPool = []string{"0", "1", "2", "3", "4", "5", "7", "8", "10", "12", "16",
 // ---------------------------------------------------------------- environment
 
 func (g *G) randType(d int) *ty {
-	r := g.int(0, 99, "ty")
-	switch {
-	case d <= 0 || r < 30:
+	if d <= 0 {
+		return []*ty{tyNum, tyStr, tyBool, tyNum}[g.w("ty0", 2, 1, 1)]
+	}
+	switch g.w("ty", 4, 3, 4, 3, 2, 1, 1) {
+	case 0:
 		return tyNum
-	case r < 48:
-		return tyStr
-	case r < 60:
-		return tyBool
-	case r < 78:
+	case 1:
 		e := g.randType(d - 1)
 		return seqOf(e, g.int(0, 3, "len"))
-	case r < 93:
+	case 2:
 		n := g.int(1, 3, "nf")
 		used := map[string]bool{}
 		var fs []fld
@@ -135,7 +153,11 @@ func (g *G) randType(d int) *ty {
 		}
 		sortFields(fs)
 		return &ty{k: tObj, fields: fs}
-	case r < 98:
+	case 3:
+		return tyStr
+	case 4:
+		return tyBool
+	case 5:
 		return dictOf(g.randType(0))
 	}
 	return tyNull
@@ -480,29 +502,24 @@ func (g *G) Expr(w *ty, d int) *Node {
 		return g.leaf(w)
 	}
 	g.budget--
-	r := g.int(0, 99, "alt")
-	// alternatives common to all types
-	switch {
-	case r < 8:
-		return g.leaf(w)
-	case r < 14 && (w.prim() || w.k == tNull):
-		// conditional with same-typed branches
-		return &Node{K: KCond, A: g.Expr(tyBool, d-1), B2: g.Expr(w, d-1), C: g.Expr(w, d-1)}
-	case r < 17 && w.prim():
-		// conditional with a null branch
-		if g.bool("nullside") {
-			return &Node{K: KCond, A: g.Expr(tyBool, d-1), B2: &Node{K: KNull}, C: g.Expr(w, d-1)}
-		}
-		return &Node{K: KCond, A: g.Expr(tyBool, d-1), B2: g.Expr(w, d-1), C: &Node{K: KNull}}
-	case r < 22:
+	// alternatives common to all types (13 of 20), else the type-specific ones
+	switch g.w("alt", 7, 2, 2, 2, 2, 2, 1, 1, 1) {
+	case 0:
+		// type-specific
+	case 1:
 		if n := g.viaIndexOrAttr(w, d); n != nil {
 			return n
 		}
-	case r < 27:
+	case 2:
 		if n := g.call(w, d); n != nil {
 			return n
 		}
-	case r < 31:
+	case 3:
+		if w.prim() || w.k == tNull {
+			// conditional with same-typed branches
+			return &Node{K: KCond, A: g.Expr(tyBool, d-1), B2: g.Expr(w, d-1), C: g.Expr(w, d-1)}
+		}
+	case 4:
 		// try(first, fallback): the first argument is deliberately faulty half of the time
 		first := g.Expr(w, d-1)
 		if g.bool("tryfault") {
@@ -513,6 +530,16 @@ func (g *G) Expr(w *ty, d int) *Node {
 			kids = append([]*Node{g.makeFault(g.faultKind(), g.leaf(w))}, kids...)
 		}
 		return &Node{K: KCall, Name: "try", Kids: kids}
+	case 5:
+		if w.prim() {
+			// conditional with a null branch
+			if g.bool("nullside") {
+				return &Node{K: KCond, A: g.Expr(tyBool, d-1), B2: &Node{K: KNull}, C: g.Expr(w, d-1)}
+			}
+			return &Node{K: KCond, A: g.Expr(tyBool, d-1), B2: g.Expr(w, d-1), C: &Node{K: KNull}}
+		}
+	case 6:
+		return g.leaf(w)
 	}
 	switch w.k {
 	case tNum:
@@ -567,15 +594,14 @@ func (g *G) boolOperand(d int) *Node {
 }
 
 func (g *G) numExpr(d int) *Node {
-	r := g.int(0, 99, "numalt")
-	switch {
-	case r < 60:
-		op := pickS(g, []string{"+", "+", "-", "-", "*", "*", "/", "%"}, "arop")
+	switch g.w("numalt", 11, 3, 3, 1) {
+	case 0:
+		op := []string{"+", "-", "*", "/", "%"}[g.w("arop", 3, 3, 3, 2, 2)]
 		a := g.numOperand(d - 1)
 		var b *Node
 		switch op {
 		case "/":
-			if g.pct(75, "pow2div") {
+			if g.pct(70, "pow2div") {
 				b = numLit(pickS(g, []string{"1", "2", "4", "8", "1/2", "16", "1/4"}, "divisor"))
 			} else {
 				b = g.numOperand(d - 1)
@@ -594,9 +620,9 @@ func (g *G) numExpr(d int) *Node {
 			b = g.numOperand(d - 1)
 		}
 		return &Node{K: KBin, Op: op, A: a, B2: b}
-	case r < 72:
+	case 1:
 		return &Node{K: KUn, Op: "-", A: g.numOperand(d - 1)}
-	case r < 84:
+	case 2:
 		// element of a constructed sequence by computed index
 		n := g.int(1, 3, "idxn")
 		seq := g.Expr(seqOf(tyNum, n), d-1)
@@ -622,37 +648,36 @@ func (g *G) indexKey(n, d int) *Node {
 }
 
 func (g *G) boolExpr(d int) *Node {
-	r := g.int(0, 99, "boolalt")
-	switch {
-	case r < 25:
+	switch g.w("boolalt", 4, 5, 4, 2, 2, 1) {
+	case 0:
 		op := pickS(g, []string{"<", "<=", ">", ">="}, "cmpop")
 		return &Node{K: KBin, Op: op, A: g.numOperand(d - 1), B2: g.numOperand(d - 1)}
-	case r < 50:
-		op := pickS(g, []string{"==", "==", "!="}, "eqop")
+	case 1:
+		op := pickS(g, []string{"==", "!=", "=="}, "eqop")
 		var t1, t2 *ty
-		switch g.int(0, 5, "eqtypes") {
-		case 0, 1, 2:
+		switch g.w("eqtypes", 3, 1, 1, 1) {
+		case 0:
 			t1 = g.randType(1)
 			t2 = t1
-		case 3:
+		case 1:
 			t1, t2 = tyNum, tyStr
-		case 4:
+		case 2:
 			t1, t2 = g.randType(1), tyNull
 		default:
 			t1, t2 = g.randType(1), g.randType(1)
 		}
 		a := g.Expr(t1, d-1)
 		b := g.Expr(t2, d-1)
-		if t1 == t2 && g.pct(35, "eqsame") {
+		if t1 == t2 && g.pct(40, "eqsame") {
 			b = clone(a)
 		}
 		return &Node{K: KBin, Op: op, A: a, B2: b}
-	case r < 72:
+	case 2:
 		op := pickS(g, []string{"&&", "||"}, "logop")
 		return &Node{K: KBin, Op: op, A: g.boolOperand(d - 1), B2: g.boolOperand(d - 1)}
-	case r < 84:
+	case 3:
 		return &Node{K: KUn, Op: "!", A: g.boolOperand(d - 1)}
-	case r < 94:
+	case 4:
 		e := g.Expr(g.randType(1), d-1)
 		if g.bool("canfault") {
 			e = g.makeFault(g.faultKind(), e)
@@ -664,11 +689,10 @@ func (g *G) boolExpr(d int) *Node {
 }
 
 func (g *G) strExpr(d int) *Node {
-	r := g.int(0, 99, "stralt")
-	switch {
-	case r < 75:
+	switch g.w("stralt", 7, 2, 1) {
+	case 0:
 		return g.Template(d, false)
-	case r < 85:
+	case 1:
 		// unification of a string with a number / bool branch: result is a string
 		other := tyNum
 		if g.bool("unifybool") {
@@ -685,7 +709,6 @@ func (g *G) strExpr(d int) *Node {
 }
 
 func (g *G) seqExpr(w *ty, d int) *Node {
-	r := g.int(0, 99, "seqalt")
 	if w.n >= 0 {
 		// a sequence of known length: constructor only
 		t := &Node{K: KTuple, Kids: []*Node{}}
@@ -694,31 +717,31 @@ func (g *G) seqExpr(w *ty, d int) *Node {
 		}
 		return t
 	}
-	switch {
-	case r < 30:
+	switch g.w("seqalt", 4, 3, 3) {
+	case 0:
+		return g.forTuple(w.elem, d)
+	case 1:
+		return g.splat(w.elem, d)
+	default:
 		n := g.int(0, 3, "tuplen")
 		t := &Node{K: KTuple, Kids: []*Node{}}
 		for i := 0; i < n; i++ {
 			t.Kids = append(t.Kids, g.Expr(w.elem, d-1))
 		}
 		return t
-	case r < 70:
-		return g.forTuple(w.elem, d)
-	default:
-		return g.splat(w.elem, d)
 	}
 }
 
 // source of an iteration: expression + types of the key and value variables
 func (g *G) iterSource(d int) (*Node, *ty, *ty) {
-	switch g.int(0, 9, "itersrc") {
-	case 0, 1, 2, 3, 4:
+	switch g.w("itersrc", 5, 3, 2) {
+	case 0:
 		et := g.randType(1)
 		if g.pct(60, "iternum") {
 			et = tyNum
 		}
 		return g.Expr(seqOf(et, -1), d), tyNum, et
-	case 5, 6, 7:
+	case 1:
 		et := g.randType(0)
 		return g.Expr(dictOf(et), d), tyStr, et
 	default:
@@ -768,8 +791,7 @@ func (g *G) forTuple(elem *ty, d int) *Node {
 }
 
 func (g *G) dictExpr(w *ty, d int) *Node {
-	r := g.int(0, 99, "dictalt")
-	if r < 40 {
+	if g.w("dictalt", 7, 3) == 1 {
 		return g.dictCons(w, d-1)
 	}
 	// object for-expression
@@ -829,11 +851,11 @@ func (g *G) splat(elem *ty, d int) *Node {
 		}
 	}
 	var src *Node
-	switch g.int(0, 9, "splatsrc") {
-	case 0:
+	switch g.w("splatsrc", 7, 2, 1) {
+	case 1:
 		// a single object: auto-wrapped into a one-element tuple
 		src = g.Expr(ot, d-1)
-	case 1:
+	case 2:
 		src = &Node{K: KNull}
 	default:
 		src = g.Expr(seqOf(ot, -1), d-1)
@@ -947,15 +969,18 @@ func (g *G) litText() string {
 	return s
 }
 
-func (g *G) stripFlag() bool { return g.pct(15, "strip") }
+func (g *G) stripFlag() bool { return g.int(0, 9, "strip") >= 8 }
 
 func (g *G) tparts(d int, top bool) []*Part {
 	n := g.int(1, 4, "nparts")
 	var ps []*Part
 	for i := 0; i < n; i++ {
-		r := g.int(0, 99, "partk")
-		switch {
-		case r < 40 || d <= 0 || g.budget <= 0:
+		r := g.w("partk", 6, 6, 3, 3)
+		if d <= 0 || g.budget <= 0 {
+			r = 1
+		}
+		switch r {
+		case 1:
 			s := g.litText()
 			if s == "" {
 				continue
@@ -965,11 +990,11 @@ func (g *G) tparts(d int, top bool) []*Part {
 			} else {
 				ps = append(ps, &Part{K: PLit, S: s})
 			}
-		case r < 70:
+		case 0:
 			g.budget--
 			t := []*ty{tyNum, tyStr, tyBool}[g.int(0, 2, "interpty")]
 			ps = append(ps, &Part{K: PInterp, E: g.Expr(t, d-1), L0: g.stripFlag(), R0: g.stripFlag()})
-		case r < 85:
+		case 2:
 			g.budget--
 			p := &Part{K: PIf, E: g.boolOperand(d - 1), L0: g.stripFlag(), R0: g.stripFlag(), L2: g.stripFlag(), R2: g.stripFlag()}
 			p.Then = g.tparts(d-1, false)
@@ -1282,22 +1307,21 @@ func (g *G) SetBudget(b int) { g.budget = b }
 // exercise for-expressions, splats and grouping.
 func (g *G) RootType() *ty {
 	prim := func() *ty { return []*ty{tyNum, tyNum, tyStr, tyBool}[g.int(0, 3, "rootprim")] }
-	r := g.int(0, 99, "rootty")
-	switch {
-	case r < 22:
-		return tyNum
-	case r < 40:
-		return tyStr
-	case r < 55:
-		return tyBool
-	case r < 75:
+	switch g.w("rootty", 4, 4, 3, 3, 2, 2, 1, 1) {
+	case 0:
 		return seqOf(g.randType(1), -1)
-	case r < 83:
-		return g.randType(2)
-	case r < 90:
-		return dictOf(prim())
-	case r < 97:
+	case 1:
+		return tyNum
+	case 2:
+		return tyStr
+	case 3:
+		return tyBool
+	case 4:
 		return dictOf(seqOf(prim(), -1))
+	case 5:
+		return dictOf(prim())
+	case 6:
+		return g.randType(2)
 	}
 	return tyNull
 }
